@@ -19,7 +19,7 @@ RULE = ("part D: get_capabilities() against a unit that serves two pages, the re
         "after a delay from {0.05,1.0,1.95,2.05,3.0,3.95,4.05,6.5} s; V2 and V3; oracle = reference model of the retry loop "
         "(transmissions at 0,2,4,.. while nothing has arrived; return at the earliest arrival T*<2r with floor(T*/2)+1 "
         "byte-identical transmissions, else TimeoutError at 2r after exactly r) compared on transmission count, virtual return "
-        "time and outcome; with r=3 also Device._send_command()==[] and refresh() -> online False on timeout; a quarter of the patterns run with a configured connection lifetime that expires mid-exchange; on V3 a quarter of the patterns with unanswered transmissions have the device emit marker-free bytes instead of staying silent (no response by C04's skipping rule; the reference model is unchanged). Part B "
+        "time and outcome; with r=3 also Device._send_command()==[] and refresh() -> online False on timeout; a quarter of the patterns run with a configured connection lifetime that expires mid-exchange; on V3 a quarter of the patterns with unanswered transmissions have the device emit marker-free bytes instead of staying silent (no response by C04's skipping rule; the reference model is unchanged). an error packet as answer to transmission k ends the exchange with a protocol error after exactly k transmissions, at LAN and device level. Part B "
         "(exhaustive): every single fault and ordered pair from {drop, drop incl. handshake, error packet, error packet also in reply to the re-authentication handshake, garbage, peer close, peer reset (mid-exchange or while idle), "
         "connect refused, connect hangs, cancel at each protocol phase} x {V2,V3} x {fresh object, established connection}, "
         "followed by a clean exchange immediately or after a pause, with or without a configured connection lifetime (1..60 s), at LAN level or through AirConditioner.refresh() (on V3 the user's single authenticate() call may have been abandoned during the 1 s settle pause after the handshake): faulty exchange ends within contract (frames / "
@@ -47,6 +47,10 @@ def reference_retry(r: int, pattern: list):
         if any(a < t_send for a in arrivals):
             break
         sent += 1
+        if pattern[i] == "E":
+            # the unit answers this transmission with an error packet (only generated after unanswered transmissions): the
+            # exchange ends there with a protocol error, nothing is transmitted again
+            return ("protocol", t_send + 0.05, sent)
         if pattern[i] is not None:
             # answers travel on one TCP stream: a later answer cannot overtake an earlier one
             arrivals.append(max(t_send + pattern[i], arrivals[-1] if arrivals else 0.0))
@@ -76,6 +80,8 @@ def check_retry(case: dict):
             i = idx["n"]
             idx["n"] += 1
             d = pattern[i] if i < len(pattern) else None
+            if d == "E":
+                return ("error",)
             if d is None:
                 if case.get("junk") and version == 3:
                     # instead of staying silent the device emits bytes without a packet start marker (line noise, a debug
@@ -130,7 +136,11 @@ def check_retry(case: dict):
         return ("retry/time", f"call ended at t={out['t']:.3f}, reference model says {t_want:.3f} (r={r}, pattern={pattern})")
     exc = out.get("exc")
     if level == "lan":
-        if want == "timeout":
+        if want == "protocol":
+            from msmart.lan import ProtocolError
+            if not isinstance(exc, ProtocolError):
+                return ("retry/no-protocol-error", f"error packet answered transmission {n_want} but outcome was {exc!r} / {out.get('frames')}")
+        elif want == "timeout":
             if not isinstance(exc, TimeoutError):
                 return ("retry/no-timeout", f"retries exhausted but outcome was {exc!r} / {out.get('frames')}")
         elif exc is not None or not out["frames"]:
@@ -138,8 +148,8 @@ def check_retry(case: dict):
     elif level == "device":
         if exc is not None:
             return (f"device/raises/{type(exc).__name__}", f"Device._send_command raised {exc!r}")
-        if want == "timeout" and out["frames"] != []:
-            return ("device/not-empty", f"timeout but _send_command returned {out['frames']}")
+        if want in ("timeout", "protocol") and out["frames"] != []:
+            return ("device/not-empty", f"{want} but _send_command returned {out['frames']}")
         if want == "frames" and not out["frames"]:
             return ("device/empty", "an answer arrived but _send_command returned nothing")
     else:
@@ -529,6 +539,16 @@ def run(ctx) -> None:
                     for level in ("device", "refresh"):
                         c2 = dict(case, level=level)
                         ctx.check(c2, lambda c: _run_one(ctx, c))
+            # an error packet as answer after 0..r-1 unanswered transmissions: the exchange ends there, at every level
+            for k in range(r):
+                n += 1
+                if not ctx.mine(n):
+                    continue
+                pat = [None] * k + ["E"] + [None] * (r - k - 1)
+                for level in ("lan", "device", "refresh"):
+                    if level != "lan" and r != 3:
+                        continue
+                    ctx.check({"part": "A", "version": version, "r": r, "pattern": pat, "level": level}, lambda c: _run_one(ctx, c))
     ctx.sweep("part A: retry budget x answer/delay patterns x {V2,V3}", n, True)
 
     # part D: two-page capability query, one page hit by a fault
